@@ -29,7 +29,8 @@ def parse_action_call(joint_action_call: str) -> JointActionCall:
     matches = re.finditer(JOINT_ACTION_REGEX, joint_action_call)
     single_agent_actions = []
     for match in matches:
-        single_agent_action_data = match.group(1)
+        # names are not case sensitive (the tokenizer and the single-agent exporter lower-case them as well).
+        single_agent_action_data = match.group(1).lower()
         action_components = single_agent_action_data.split()
         action_name = action_components[0]
         single_agent_actions.append(
